@@ -20,6 +20,7 @@ MODULES = ["LbfgsbVerif.Props.C17", "LbfgsbVerif.Props.C17FD"]
 def evaluate(case: Dict[str, Any]) -> Dict[str, Any]:
     out: Dict[str, Any] = {"corr": [], "skipped": None, "tags": [], "prop": []}
     kw, desc, p = shell.build(case)
+    fd_mode = (case.get("features") or {}).get("jac", "callable") != "callable"
     A = Run(kw).execute()
     if A.nonfinite() or A.exc is not None:
         return {"corr": None, "skipped": None, "tags": ["nonfinite-or-failing"], "prop": []}
@@ -42,8 +43,14 @@ def evaluate(case: Dict[str, Any]) -> Dict[str, Any]:
     else:
         x, g, lb, ub = A.rec.sc_args
         x0c = np.clip(p.x0, p.lb, p.ub)
-        if vhex(x) != vhex(x0c) or vhex(g) != vhex(np.atleast_1d(p.grad(x0c.copy()))) \
-                or vhex(lb) != vhex(p.lb) or vhex(ub) != vhex(p.ub):
+        gref = np.atleast_1d(p.grad(x0c.copy()))
+        if fd_mode:
+            # finite-difference gradient: the unscaled gradient up to the differencing error (fixed components are zeroed)
+            gref = np.where(p.lb == p.ub, 0.0, gref)
+            g_ok = bool(np.allclose(g, gref, rtol=1e-3, atol=1e-4 * max(1.0, float(np.max(np.abs(gref))))))
+        else:
+            g_ok = vhex(g) == vhex(gref)
+        if vhex(x) != vhex(x0c) or not g_ok or vhex(lb) != vhex(p.lb) or vhex(ub) != vhex(p.ub):
             out["prop"].append({"what": "gradient scaler not called with (start point, its unscaled gradient, bounds)", "key": ""})
     if desc["features"].get("scaler") == "packaged" and nsc == 1 and A.rec.sc and not A.rec.sc.startswith("!"):
         # the packaged scaler against its Lean model (Model/Utils.lean), bit for bit
@@ -79,7 +86,12 @@ def evaluate(case: Dict[str, Any]) -> Dict[str, Any]:
     kwB.pop("gradient_scaler", None)
     f, g = p.fun, p.grad
     kwB["fun"] = lambda x: f(x) * s
-    kwB["jac"] = lambda x: np.atleast_1d(g(x)) * s
+    if fd_mode:
+        # finite differences of s*f: for s a power of two every operation of the differencing commutes exactly with
+        # the scaling, so the two runs must still agree bit for bit
+        kwB["jac"] = kw.get("jac")
+    else:
+        kwB["jac"] = lambda x: np.atleast_1d(g(x)) * s
     B = Run(kwB).execute()
     if B.exc is not None or B.nonfinite():
         return out
@@ -113,13 +125,20 @@ def run(tier: str, seed: int) -> int:
                 "ftarget": "none" if i % 4 else r.choice(["float", "callable", "int", "callable_int"]), "gtol_callable": False,
                 "scaler": r.choice(["const", "const", "packaged"]), "s": 10 ** r.uniform(-3, 3), "update": "none"}
         cases.append({"seed": s, "features": feat})
+    for i in range(n // 2):
+        s = seed * 1_000_003 + 500_000 + i
+        r = random.Random(s)
+        feat = {"jac": r.choice(["2-point", "3-point", "none"]), "callback": r.choice(["none", "false"]), "ftarget": "none",
+                "gtol_callable": False, "scaler": "const", "s": 2.0 ** r.choice([-6, -3, -2, -1, 1, 2, 3, 6]), "update": "none"}
+        cases.append({"seed": s, "features": feat, "families": ["qp", "qp_quartic", "rosen", "styb", "osc"]})
     # a share of cases with a target, to exercise "target tested on the unscaled value" (monitor C04 via message truth)
     return run_property(
         PROP, "harness.props.c17", THEOREMS, MODULES, cases, tier, seed,
         rule="pairs of runs: (f, grad f, scaler returning s) against (s*f, s*grad f, no scaler), s log-uniform in [1e-3, 1e3] or the "
              "packaged scaler; results and evaluation-point sequences compared bit for bit; scaler call arguments checked; the scaler run "
-             "is replayed through the Lean model; non-trivial = at least one iteration",
-        assumptions=["callable gradient (finite differences of s*f and s*(finite differences of f) differ by rounding)", "ftarget None in the pair comparison"])
+             "is replayed through the Lean model; the same pair comparison in the finite-difference modes (2-point, 3-point, None) with s a power of two, "
+             "for which the differencing commutes exactly with the scaling; non-trivial = at least one iteration",
+        assumptions=["callable gradient, or finite differences with s a power of two (otherwise finite differences of s*f and s*(finite differences of f) differ by rounding)", "ftarget None in the pair comparison"])
 
 
 def replay(path: str) -> int:
